@@ -33,10 +33,85 @@ def catalogue() -> list[dict[str, Any]]:
         importlib.reload(mod)
     finally:
         sys.path.pop(0)
-    return mod.MUTANTS
+    return list(mod.MUTANTS) + seeded()
+
+
+def seeded() -> list[dict[str, Any]]:
+    """The independently seeded changes kept under /verif/seeded (DESIGN
+    8.5), replayed as overlays like any other mutant."""
+    import json
+    out = []
+    base = os.path.join(VERIF, 'seeded')
+    for sid in sorted(os.listdir(base)) if os.path.isdir(base) else []:
+        meta = os.path.join(base, sid, 'meta.json')
+        patch = os.path.join(base, sid, 'patch.diff')
+        if os.path.exists(meta) and os.path.exists(patch):
+            with open(meta) as f:
+                prop = json.load(f)['property']
+            out.append({'id': f'seeded/{sid}', 'property': prop,
+                        'patch': patch, 'expect': '', 'kind': 'mutant'})
+    return out
+
+
+def apply_unified(root: str, diff: str) -> dict[str, str] | None:
+    """Apply a unified diff in memory; returns {relative path: new text} or
+    None if a hunk does not fit (the tree moved away from the seed)."""
+    files: dict[str, list[tuple[int, list[str]]]] = {}
+    cur: list[tuple[int, list[str]]] | None = None
+    for line in diff.splitlines():
+        if line.startswith('+++ '):
+            name = line[4:].strip()
+            name = name[2:] if name.startswith('b/') else name
+            cur = files.setdefault(name, [])
+        elif line.startswith('@@') and cur is not None:
+            start = int(line.split()[1].split(',')[0].lstrip('-'))
+            cur.append((start, []))
+        elif cur and line[:1] in (' ', '+', '-') and not line.startswith(
+                ('--- ', '+++ ')):
+            cur[-1][1].append(line)
+        elif cur and line == '':
+            cur[-1][1].append(' ')
+    out = {}
+    for rel, hunks in files.items():
+        try:
+            text = open(os.path.join(root, rel), encoding='utf-8').read()
+        except OSError:
+            return None
+        lines = text.split('\n')
+        shift = 0
+        for start, body in hunks:
+            old = [l[1:] for l in body if l[:1] in (' ', '-')]
+            new = [l[1:] for l in body if l[:1] in (' ', '+')]
+            while old and new and old[-1] == '' and new[-1] == '':
+                old.pop()
+                new.pop()
+            want = start - 1 + shift
+            pos = None
+            for d in sorted(range(-400, 401), key=abs):
+                i = want + d
+                if 0 <= i <= len(lines) - len(old) and lines[
+                        i:i + len(old)] == old:
+                    pos = i
+                    break
+            if pos is None:
+                return None
+            lines[pos:pos + len(old)] = new
+            shift += len(new) - len(old) + (pos - want)
+        out[rel] = '\n'.join(lines)
+        try:
+            compile(out[rel], rel, 'exec')
+        except SyntaxError:
+            return None
+    return out
 
 
 def _apply(root: str, m: dict[str, Any]) -> dict[str, str] | None:
+    if 'patch' in m:
+        try:
+            with open(m['patch'], encoding='utf-8') as f:
+                return apply_unified(root, f.read())
+        except OSError:
+            return None
     path = os.path.join(root, m['file'])
     try:
         text = open(path, encoding='utf-8').read()
